@@ -338,6 +338,7 @@ type fileRun struct {
 	out     any
 	intern  map[string]int
 	recs    []sx
+	runs    int
 	measure bool // report `overalloc` when one ReadFile allocates more than allocLimit
 }
 
@@ -372,7 +373,15 @@ func (fr *fileRun) read(data []byte, failAt int) (ids []int, res sx) {
 	if fr.measure {
 		runtime.ReadMemStats(&m0)
 	}
-	err := avro.ReadFile(bufio.NewReader(bytes.NewReader(data)), fr.out, func(p unsafe.Pointer, rb *avro.ResourceBank) error {
+	// every other run hands ReadFile a pointer to a struct that still holds an earlier record
+	var out any = fr.out
+	fr.runs++
+	if fr.runs%2 == 0 {
+		pv := reflect.New(fr.t)
+		fillJunk(pv.Elem(), 0)
+		out = pv.Interface()
+	}
+	err := avro.ReadFile(bufio.NewReader(bytes.NewReader(data)), out, func(p unsafe.Pointer, rb *avro.ResourceBank) error {
 		d := dumpVal(reflect.NewAt(fr.t, p).Elem())
 		key := d.String()
 		id, ok := fr.intern[key]
